@@ -148,6 +148,6 @@ def st_case(draw, algo=None):
 
 
 COMPONENTS = [
-    Component("union_bound", check, strategy=st_case, quick=1600, thorough=40000,
+    Component("union_bound", check, strategy=st_case, quick=800, thorough=40000,
               rule="8 algorithm/confidence-type variants; delta in (1e-7, 1-1e-7) dense towards both ends; K = 1..1e6; m = 2..6"),
 ]
